@@ -21,6 +21,7 @@ ENGINES = {
     "vh-conc": {"path": "harness/conc", "kind": "DataLoader under vsched (Spawn, Timer and Loader owned by the schedule), offline history checker; real-thread mode; Miri supplement"},
     "vh-crash": {"path": "harness/crash", "kind": "process-level crash monitor: parent generates hostile inputs, children run them on 2 MiB stacks; panics, aborts and stalls are observed from outside"},
     "vh-parse": {"path": "harness/parse", "kind": "independent hand-written GraphQL parser R2 (harness/r2) + token-position printer; three-way agreement and position monitors"},
+    "vh-sdl": {"path": "harness/sdl", "kind": "SDL export monitor: own source model + dynamic builder + 12 derive-built schemas; R2 and crate parser read the export back; structural diff"},
     "vh-intro": {"path": "harness/intro", "kind": "introspection monitors: client-schema rebuild, three-way model diff (source / introspection / SDL via R2), visibility scanner"},
     "vh-gate": {"path": "harness/gate", "kind": "introspection-mode matrix, secret-sentinel scanner over logged text, persisted-query store model"},
 }
@@ -69,6 +70,13 @@ PROPS = {
               "Exploration: 50 validated argument fields and an input object, Strict and Fast modes, literals and variables, values at/below/above every bound; "
               "the resolver runs iff the exact predicate holds, otherwise the request errors.",
               "regex crate trusted on the oracle side; multiple_of(0) excluded (intent unclear, pinned by a repo unit test)."),
+    "C09": _p("vh-exec", "valid-by-construction documents + 52 rule-targeted single-edit mutants executed by the real schema; a pass-through extension and the resolver event log decide whether a request was executed",
+              "Exploration: ~59k valid documents (+ validity-preserving variants) and ~76k mutants per quick run (5M requests thorough) over S1 incl. subscriptions "
+              "and ~1.7k generated dynamic schemas, Strict mode: valid ones must reach execution, every mutant must be rejected before execution with a located "
+              "error, and errors on accepted valid documents must have a resolver cause. Every enabled operator is applied at least 150 times (floor).",
+              "The 'iff' is decided on generated documents only (validity by the generator's construction argument, invalidity by each operator's guard). Not covered: "
+              "SameResponseShape across disjoint object types, oneOf and Upload rules. Ten known findings exclude sixteen operators; each class stays observed "
+              "through its pinned witness."),
     "C10": _p("vh-exec", "reference-measure oracle (own AST, fragments inlined) vs real limit enforcement with each limit at m-1, m, m+1; resolver event log shows whether anything ran",
               "Exploration: generated single-operation documents (fragments, aliases, rule-feeding arguments from literals, variables, defaults, omission; "
               "directives that never prune) over S1, a second derive-built schema S10 (complexity rules of four shapes behind an interface and a union) and "
@@ -101,6 +109,12 @@ PROPS = {
               "Exploration: a 22-variant recursive type family covering every serde data-model shape, nested to depth 4, random values; "
               "from_value(to_value(x)) must equal x.",
               "char, i128/u128, non-finite floats and Option<Option<T>> are outside the stated model and only exercised one-sidedly."),
+    "C17": _p("vh-sdl", "exported SDL parsed back by the independent parser R2 and by the crate's parse_schema; both normalised and diffed structurally against the source description the schema was built from",
+              "Exploration: 800 (quick) / 1500 (thorough) generated dynamic schemas with hostile description / deprecation-reason / default / directive-argument "
+              "text, applied directives, interface inheritance and federation attributes, plus 12 derive-built schemas with hand models; exports under 16 option "
+              "sets per generated schema in quick (all 768 = 2^8 x 3 indent widths in thorough and for the derive family); Schema::sdl() = default options.",
+              "Federation mode is compared modulo its additions; element order is asserted only under a sorted_* option; raw control characters inside strings are "
+              "counted, not judged; repeatable is judged through R2 only. Eleven known findings exclude their text/structure classes."),
     "C18": _p("vh-intro", "client-schema rebuild from the real introspection JSON + structural diff against the source model and the SDL model (R2); raw-text scan for uniquely named hidden elements",
               "Exploration, exhaustive over the 16 visibility contexts of a hand-written static family, sampled over random dynamic type systems (descriptions, "
               "deprecations, defaults, specifiedByURL, oneOf, interface inheritance, unions, three roots, orphan types, hostile text): standard graphql-js "
